@@ -151,13 +151,9 @@ func main() {
 		got := normDigest(d.Tree)
 		if !reflect.DeepEqual(want, got) && treeDiff(want, got, "") != "equal" {
 			what := fmt.Sprintf("message %s (via %s): the fetched message does not have the submitted part tree: %s", it.token, it.via, treeDiff(want, got, ""))
-			if classNameOnCT(it.tree) {
-				rep.Finding("C02-F2", "a file name given only as Content-Type name= is lost: "+what, []string{"msg " + hx.H(it.msg)})
-			} else {
-				nviol++
-				if nviol <= 3 {
-					rep.Violate("impl-violation", "tree (independent MIME reader vs Props.C02.tree_roundtrip)", what, []string{"msg " + hx.H(it.msg)})
-				}
+			nviol++
+			if nviol <= 3 {
+				rep.Violate("impl-violation", "tree (independent MIME reader vs Props.C02.tree_roundtrip)", what, []string{"msg " + hx.H(it.msg)})
 			}
 			continue
 		}
